@@ -6,11 +6,14 @@ HARNESS_FAMILY = 'life'
 TRACE_SPEC = ('TraceLife.tla', 'TraceLife.cfg')
 INVS = ['DeliveredNeedsConnection', 'ErrorMeansNotDelivered', 'CloseIsFinal', 'TypeOK', 'Emit']
 ALL = '{"Dial", "Send", "Reset", "Close", "DialAndSend"}'
+OWN = '{"Dial", "Send", "Close", "DialAndSendCtx", "QuickSend", "LegacySendMail"}'
 STAGES = {
     'X01': {
         'quick': [('all-ops-len3', 'ClientLife', dict(MAXOPS='3', OPNAMES=ALL, DEV_SendOnClosed='FALSE')),
+                  ('helpers-with-own-connection-len3', 'ClientLife', dict(MAXOPS='3', OPNAMES=OWN, DEV_SendOnClosed='FALSE')),
                   ('dial-send-close-len4', 'ClientLife', dict(MAXOPS='4', OPNAMES='{"Dial", "Send", "Close"}', DEV_SendOnClosed='FALSE'))],
         'thorough': [('all-ops-len4', 'ClientLife', dict(MAXOPS='4', OPNAMES=ALL, DEV_SendOnClosed='FALSE')),
+                     ('helpers-with-own-connection-len4', 'ClientLife', dict(MAXOPS='4', OPNAMES=OWN, DEV_SendOnClosed='FALSE')),
                      ('dial-send-reset-close-len5', 'ClientLife', dict(MAXOPS='5', OPNAMES='{"Dial", "Send", "Reset", "Close"}', DEV_SendOnClosed='FALSE'))],
     },
 }
@@ -68,6 +71,18 @@ def mut_drop_close(evs):
     return None
 
 
+def mut_helper_leak(evs):
+    # QuickSend / smtp.SendMail / DialAndSend: the transport the call opened is not closed when it returns
+    j = _find(evs, lambda e: e['ev'] == 'call' and e['op'] in ('QuickSend', 'LegacySendMail', 'DialAndSendCtx', 'DialAndSend') and e['f'] != 'refused')
+    if j < 0:
+        return None
+    k = _find(evs, lambda e: e['ev'] == 'ret', j)
+    for i in range(j, k):
+        if evs[i]['ev'] == 'cclose':
+            return evs[:i] + evs[i + 1:]
+    return None
+
+
 def mut_cmd_without_conn(evs):
     # a command read by the server during a Send that has no connection
     if evs[0]['ops'][0]['op'] != 'Send':     # the first call of the history: no connection can exist
@@ -85,6 +100,7 @@ SELFTESTS = {'X01': [
     ('delivered without acknowledgement', lambda evs: mut_ret(evs, lambda e: not e['delivered'] and e['op'] == 'Send', delivered=True), 'X01_DeliveredIffAcked'),
     ('Close leaves the connection open', mut_drop_close, 'X01_CloseClosesShared'),
     ('command without a connection', mut_cmd_without_conn, 'X01_NothingSentWithoutConnection'),
+    ('helper leaves its connection open', mut_helper_leak, 'X01_OwnConnectionClosed'),
 ]}
 VACUITY = {'X01': ['calls', 'delivered', 'errors', 'noconn', 'gone']}
 LEVEL = {'X01': 'model_checking'}
